@@ -471,3 +471,272 @@ Proof.
     intros s0 b0 i0 t0 X. inversion X; subst. split; cbn; auto. }
   apply adj_rev_nth. apply R.
 Qed.
+
+(** * ONE run (one EncodeConnectivityFromCorner): every step is a [link], E / S find a non-empty stack, the first
+    configuration has the stack [start corner], and at the end of the run everything left on the stack was popped.
+    With the count of the symbols this gives the stack discipline without dead pops ([ladj_strict]): the slack
+    1 + #S - #E - |stack| never decreases, is 0 at the start, and is 0 at the end iff #E = #S + 1. *)
+Fixpoint gadj (R : cfg -> cfg -> Prop) (tr : list cfg) : Prop :=   (* newest first *)
+  match tr with
+  | cf' :: ((cf :: _) as r) => R cf cf' /\ gadj R r
+  | _ => True
+  end.
+Lemma gadj_tl R a tr : gadj R (a :: tr) -> gadj R tr.
+Proof. destruct tr as [|b t]; cbn [gadj]; [auto|intros [_ X]; exact X]. Qed.
+Lemma gadj_rev_nth R tr : gadj R tr -> forall i cf cf', nth_error (rev tr) i = Some cf -> nth_error (rev tr) (S i) = Some cf' -> R cf cf'.
+Proof.
+  induction tr as [|a tr IH]; intros A i cf cf' E1 E2; [destruct i; discriminate|].
+  cbn [rev] in E1, E2.
+  assert (Li : S i < length (rev tr ++ [a])) by (apply nth_error_Some; congruence). rewrite app_length, rev_length in Li. cbn in Li.
+  destruct (Nat.eq_dec (S i) (length tr)) as [Ei|Ni].
+  - rewrite nth_error_app2 in E2 by (rewrite rev_length; lia). rewrite rev_length, Ei, Nat.sub_diag in E2. cbn in E2. inversion E2; subst cf'.
+    rewrite nth_error_app1 in E1 by (rewrite rev_length; lia).
+    destruct tr as [|b tr]; [cbn in Ei; lia|]. cbn [gadj] in A. destruct A as [T _].
+    cbn [rev] in E1. cbn [length] in Ei. rewrite nth_error_app2 in E1 by (rewrite rev_length; lia).
+    rewrite rev_length in E1. replace (i - length tr) with 0 in E1 by lia. cbn in E1. inversion E1; subst. auto.
+  - rewrite nth_error_app1 in E1, E2 by (rewrite rev_length; lia).
+    apply (IH (gadj_tl _ _ _ A) i); auto.
+Qed.
+
+Definition slink (opp : list (option nat)) (cf : cfg) (sy : list Z) (st : list (option nat)) : Prop :=
+  exists y dead, sy = y :: syms (cf_st cf) /\ pushed opp y (cf_corner cf) (stack (cf_st cf)) = dead ++ st /\
+    (y = 7%Z \/ y = 1%Z -> stack (cf_st cf) <> []).
+Definition lstep (opp : list (option nat)) (cf cf' : cfg) : Prop := slink opp cf (syms (cf_st cf')) (stack (cf_st cf')).
+Definition ladj (opp : list (option nat)) := gadj (lstep opp).
+(** strict: nothing is popped between two symbols *)
+Definition sstep (opp : list (option nat)) (cf cf' : cfg) : Prop :=
+  stack (cf_st cf') = pushed opp (hd 0%Z (syms (cf_st cf'))) (cf_corner cf) (stack (cf_st cf)).
+
+Section LAdj.
+Variables (c2v : list nat) (opp : list (option nat)) (hid : list (option nat)).
+
+Definition lpre (tr : list cfg) (s : est) : Prop :=
+  match tr with [] => True | cf :: _ => slink opp cf (syms s) (stack s) end.
+Definition lpost (tr : list cfg) (s : est) : Prop :=
+  match tr with [] => False | cf :: _ => slink opp cf (syms s) (stack s) end.
+
+Lemma inner_tr_ladj : forall k s c tr s' tr', inner_tr c2v opp hid k s (Some c) tr = EOk (s', tr') ->
+  ladj opp tr -> lpre tr s ->
+  ladj opp tr' /\ ((tr' = tr /\ s' = s) \/ lpost tr' s') /\
+  exists pre, tr' = pre ++ tr /\ (k <> 0 -> exists pre', pre = pre' ++ [mk_cfg c s]).
+Proof.
+  induction k as [|k IH]; intros s c tr s' tr' H A P; cbn [inner_tr] in H.
+  - inversion H; subst. split; auto. split; auto. exists []. split; auto. intros X. congruence.
+  - cbv zeta in H.
+    assert (A1 : ladj opp (mk_cfg c s :: tr)).
+    { destruct tr as [|cf r]; cbn [ladj gadj]; auto. }
+    assert (Fin : forall pre', tr' = pre' ++ mk_cfg c s :: tr ->
+              exists pre, tr' = pre ++ tr /\ (S k <> 0 -> exists pre'', pre = pre'' ++ [mk_cfg c s])).
+    { intros pre' ->. exists (pre' ++ [mk_cfg c s]). rewrite <- app_assoc. split; auto. intros _. eauto. }
+    assert (Step : forall s3 o y0, inner_tr c2v opp hid k s3 o (mk_cfg c s :: tr) = EOk (s', tr') -> syms s3 = y0 :: syms s ->
+              stack s3 = stack s -> (y0 = 0 \/ y0 = 3 \/ y0 = 5)%Z ->
+              ladj opp tr' /\ ((tr' = tr /\ s' = s) \/ lpost tr' s') /\
+              exists pre, tr' = pre ++ tr /\ (S k <> 0 -> exists pre', pre = pre' ++ [mk_cfg c s])).
+    { intros s3 o y0 E3 Y3 St3 Hy.
+      assert (L3 : slink opp (mk_cfg c s) (syms s3) (stack s3)).
+      { exists y0, []. cbn [cf_st cf_corner app]. split; auto. split.
+        - unfold pushed. destruct Hy as [->|[->| ->]]; cbn; auto.
+        - intros [X|X]; destruct Hy as [Y|[Y|Y]]; rewrite Y in X; discriminate. }
+      destruct o as [nx|].
+      - destruct (IH s3 nx _ _ _ E3 A1 L3) as (B1 & B2 & pre & B3 & _).
+        split; auto. split; [|apply (Fin pre); auto]. right. destruct B2 as [(-> & ->)|B2]; auto.
+      - destruct k; cbn in E3; [|discriminate]. inversion E3; subst. split; auto. split; [right; exact L3|]. apply (Fin []). reflexivity. }
+    hstep H. hstep H. hstep H. hstep H. hstep H.
+    match goal with X : (if _ then EOk _ else _) = EOk _ |- _ => apply mark_stack in X; cbn in X; destruct X as (P1 & Y1 & St1 & Vf1) end.
+    hstep H.
+    + hstep H. apply (Step _ _ 0%Z H); unfold TOPOLOGY_C; cbn; auto; try congruence.
+    + hstep H. hstep H. hstep H. hstep H.
+      * hstep H. hstep H.
+        -- hstep H. inversion H; subst. split; auto. split; [|apply (Fin []); reflexivity]. right. cbn [lpost].
+           exists 7%Z, []. cbn [cf_st cf_corner app emit with_syms with_stack syms stack].
+           destruct (check_split_stack' (check_split a3 RIGHT_FACE_EDGE a4) LEFT_FACE_EDGE a5) as (C1 & C2 & _).
+           destruct (check_split_stack' a3 RIGHT_FACE_EDGE a4) as (C3 & C4 & _).
+           cbn in Est. rewrite C1, C3, St1 in Est.
+           split; [rewrite C2, C4, Y1; reflexivity|]. split; [|intros _; rewrite Est; discriminate].
+           unfold pushed. cbn. rewrite Est. reflexivity.
+        -- apply (Step _ _ 5%Z H); unfold TOPOLOGY_R; cbn; rewrite ?(proj1 (check_split_stack' _ _ _)), ?(proj1 (proj2 (check_split_stack' _ _ _))); auto; try congruence.
+      * hstep H. hstep H.
+        -- apply (Step _ _ 3%Z H); unfold TOPOLOGY_L; cbn; rewrite ?(proj1 (check_split_stack' _ _ _)), ?(proj1 (proj2 (check_split_stack' _ _ _))); auto; try congruence.
+        -- hstep H.
+           match goal with X : match ?h with Some _ => _ | None => _ end = EOk ?sx |- _ =>
+             assert (P6 : stack sx = stack s /\ syms sx = TOPOLOGY_S :: syms s);
+             [ destruct h as [hole|];
+               [ hstep X; hstep X;
+                 [ inversion X; subst; cbn; split; congruence
+                 | apply encode_hole_stack' in X; cbn in X; destruct X as [-> ->]; split; congruence ]
+               | inversion X; subst; cbn; split; congruence ] | ] end.
+           destruct P6 as [P6 Y6]. hstep H. inversion H; subst. split; auto. split; [|apply (Fin []); reflexivity]. right. cbn [lpost].
+           exists 1%Z, []. cbn [cf_st cf_corner app with_f2s with_stack syms stack]. split; [rewrite Y6; reflexivity|].
+           match goal with X : right_corner opp c = EOk ?r, X2 : left_corner opp c = EOk ?l |- _ =>
+             assert (Er : oat opp (next_c c) = r) by (apply eget_oat; exact X);
+             assert (El : oat opp (prev_c c) = l) by (apply eget_oat; exact X2) end.
+           cbn in Est. rewrite P6 in Est.
+           split; [unfold pushed; cbn; rewrite Er, El, Est; reflexivity|].
+           intros _. rewrite Est. discriminate.
+Qed.
+
+Lemma slink_pop cf sy x r : slink opp cf sy (x :: r) -> slink opp cf sy r.
+Proof. intros (y & dead & A & B & C). exists y, (dead ++ [x]). rewrite <- app_assoc. auto. Qed.
+
+(** the oldest configuration recorded by a run that starts with the empty trace *)
+Definition first_cfg (tr' : list cfg) (st0 : list (option nat)) : Prop :=
+  tr' = [] \/ exists pre cf d, tr' = pre ++ [cf] /\ st0 = d ++ stack (cf_st cf) /\ hd None (stack (cf_st cf)) = Some (cf_corner cf).
+
+Lemma outer_tr_ladj : forall fuel s tr s' tr', outer_tr c2v opp hid fuel s tr = EOk (s', tr') ->
+  ladj opp tr -> lpre tr s ->
+  ladj opp tr' /\ lpre tr' s' /\ stack s' = [] /\ (tr = [] -> first_cfg tr' (stack s)).
+Proof.
+  induction fuel as [|k IH]; intros s tr s' tr' H A P; cbn [outer_tr] in H; [discriminate|].
+  destruct (stack s) as [|top r] eqn:St.
+  - inversion H; subst. split; auto. split; auto. split; auto. intros ->. left. reflexivity.
+  - assert (Pop : lpre tr (with_stack s r)).
+    { destruct tr as [|cf t]; cbn [lpre] in *; auto. cbn [with_stack syms stack]. rewrite St in P. eapply slink_pop; eauto. }
+    assert (Dead : outer_tr c2v opp hid k (with_stack s r) tr = EOk (s', tr') ->
+              ladj opp tr' /\ lpre tr' s' /\ stack s' = [] /\ (tr = [] -> first_cfg tr' (top :: r))).
+    { intros H'. destruct (IH _ _ _ _ H' A Pop) as (B1 & B2 & B3 & B4). split; auto. split; auto. split; auto.
+      intros E. destruct (B4 E) as [X|(pre & cf & d & X1 & X2 & X3)]; [left; exact X|right].
+      cbn [with_stack stack] in X2. exists pre, cf, (top :: d). rewrite X2. auto. }
+    destruct top as [c|]; [|apply Dead; exact H].
+    hstep H. hstep H; [apply Dead; exact H|].
+    hstep H. match goal with X : inner_tr _ _ _ _ _ _ _ = EOk ?p |- _ => destruct p as [s1 tr1]; rename X into E1 end. cbn [fst snd] in H.
+    destruct (inner_tr_ladj _ _ _ _ _ _ E1 A) as (A1 & B1 & pre1 & C1 & C2).
+    { destruct tr as [|cf t]; cbn [lpre] in *; auto. }
+    assert (P1 : lpre tr1 s1).
+    { destruct B1 as [(-> & ->)|B1]; auto. destruct tr1 as [|cf1 t1]; cbn [lpost lpre] in *; [contradiction|auto]. }
+    destruct (IH _ _ _ _ H A1 P1) as (B2 & B3 & B4 & B5). split; auto. split; auto. split; auto.
+    intros ->. rewrite app_nil_r in C1. subst tr1.
+    destruct (Nat.eq_dec (NF c2v) 0) as [Z0|NZ].
+    + rewrite Z0 in E1. cbn [inner_tr] in E1. inversion E1; subst. rewrite <- St. apply B5. reflexivity.
+    + destruct (C2 NZ) as (pre' & ->).
+      (* tr' extends pre' ++ [mk_cfg c s] *)
+      assert (Ext : forall fuel0 s0 t0 s0' t0', outer_tr c2v opp hid fuel0 s0 t0 = EOk (s0', t0') -> exists p, t0' = p ++ t0).
+      { clear. induction fuel0 as [|f IHf]; intros s0 t0 s0' t0' H0; cbn [outer_tr] in H0; [discriminate|].
+        destruct (stack s0) as [|[c0|] r0]; [inversion H0; subst; exists []; reflexivity| |apply (IHf _ _ _ _ H0)].
+        hstep H0. hstep H0; [apply (IHf _ _ _ _ H0)|]. hstep H0.
+        match goal with X : inner_tr _ _ _ _ _ _ _ = EOk ?p |- _ => destruct p as [s1 tr1]; rename X into E1 end. cbn [fst snd] in H0.
+        destruct (IHf _ _ _ _ H0) as (p & ->).
+        assert (Ei : forall k s c tr s' tr', inner_tr c2v opp hid k s c tr = EOk (s', tr') -> exists p, tr' = p ++ tr).
+        { clear. induction k as [|k IHk]; intros s c tr s' tr' H; cbn [inner_tr] in H; [inversion H; subst; exists []; reflexivity|].
+          destruct c as [c|]; [|discriminate]. cbv zeta in H.
+          assert (Stp : forall s3 o, inner_tr c2v opp hid k s3 o (mk_cfg c s :: tr) = EOk (s', tr') -> exists p, tr' = p ++ tr).
+          { intros s3 o E. destruct (IHk _ _ _ _ _ E) as (p & ->). exists (p ++ [mk_cfg c s]). rewrite <- app_assoc. reflexivity. }
+          repeat (hstep H; try (apply (Stp _ _ H)); try (inversion H; subst; exists [mk_cfg c s]; reflexivity)). }
+        destruct (Ei _ _ _ _ _ _ E1) as (p1 & ->). exists (p ++ p1). rewrite app_assoc. reflexivity. }
+      destruct (Ext _ _ _ _ _ H) as (p & ->). right. exists (p ++ pre'), (mk_cfg c s), []. rewrite <- app_assoc.
+      cbn [cf_st cf_corner app]. rewrite St. auto.
+Qed.
+
+Lemma from_corner_tr_ladj s c s' tr' : from_corner_tr c2v opp hid s (Some c) [] = EOk (s', tr') ->
+  ladj opp tr' /\ lpre tr' s' /\ stack s' = [] /\
+  (tr' = [] \/ exists pre cf, tr' = pre ++ [cf] /\ stack (cf_st cf) = [Some (cf_corner cf)]).
+Proof.
+  intros H. unfold from_corner_tr in H. destruct (outer_tr_ladj _ _ _ _ _ H) as (A & B & C & D); cbn [ladj gadj lpre]; auto.
+  split; auto. split; auto. split; auto.
+  destruct (D eq_refl) as [X|(pre & cf & d & X1 & X2 & X3)]; [left; exact X|right]. exists pre, cf. split; auto.
+  cbn [with_stack stack] in X2. destruct d as [|d0 d]; cbn [app] in X2.
+  - rewrite <- X2 in X3 |- *. cbn in X3. inversion X3; subst. reflexivity.
+  - inversion X2 as [[Q1 Q2]]. destruct d; cbn in Q2; [|discriminate]. rewrite <- Q2 in X3. cbn in X3. discriminate.
+Qed.
+
+(** the whole encoding, when it has exactly one start-face bit *)
+Definition run1 (tr : list cfg) (s : est) : Prop :=
+  tr = [] \/ (ladj opp tr /\ lpost tr (with_stack s []) /\ exists pre cf, tr = pre ++ [cf] /\ stack (cf_st cf) = [Some (cf_corner cf)]).
+Definition run1_4 (st : eres (est * list bool * list nat * list cfg)) : Prop :=
+  forall s bits inits tr, st = EOk (s, bits, inits, tr) ->
+    (bits = [] /\ tr = []) \/ (length bits = 1 /\ run1 tr s) \/ 2 <= length bits.
+
+Lemma run1_same tr s s' : run1 tr s -> syms s' = syms s -> run1 tr s'.
+Proof. intros [X|(A & B & C)] E; [left; exact X|right]. split; auto. split; auto. destruct tr; auto. cbn [lpost with_stack syms stack] in *. rewrite E. auto. Qed.
+
+Lemma from_corner_run1 s c s' tr' : from_corner_tr c2v opp hid s (Some c) [] = EOk (s', tr') -> run1 tr' s'.
+Proof.
+  intros H. destruct (from_corner_tr_ladj _ _ _ _ H) as (A & B & C & [D|D]); [left; exact D|right].
+  split; auto. split; auto. destruct tr' as [|cf t]; [destruct D as (pre & cf & X & _); destruct pre; discriminate|].
+  cbn [lpost lpre with_stack syms stack] in *. rewrite C in B. exact B.
+Qed.
+
+Lemma ec_corner_tr_run1 st c_id : run1_4 st -> run1_4 (ec_corner_tr c2v opp hid st c_id).
+Proof.
+  intros Co s' bits' inits' tr' H. unfold ec_corner_tr in H.
+  destruct st as [[[[s bits] inits] tr]| | |]; cbn [ebind] in H; try discriminate. specialize (Co s bits inits tr eq_refl).
+  hstep H. hstep H. { inversion H; subst; auto. }
+  destruct (is_degenerated c2v (c_id / 3)). { inversion H; subst; auto. }
+  hstep H. match goal with X : find_init _ _ _ _ = EOk ?p |- _ => destruct p as [start interior] end.
+  destruct Co as [(-> & ->)|[(L1 & _)|L2]].
+  2: { right. right. destruct interior; repeat hstep H;
+       repeat match type of H with match ?o with Some _ => _ | None => _ end = _ => destruct o end; repeat hstep H;
+       inversion H; subst; cbn [length]; lia. }
+  2: { right. right. destruct interior; repeat hstep H;
+       repeat match type of H with match ?o with Some _ => _ | None => _ end = _ => destruct o end; repeat hstep H;
+       inversion H; subst; cbn [length]; lia. }
+  right. left. destruct interior.
+  - repeat hstep H.
+    match type of H with match ?o with Some _ => _ | None => _ end = _ => destruct o as [oc|] end.
+    + hstep H. hstep H. { inversion H; subst. split; [reflexivity|left; reflexivity]. }
+      hstep H. match goal with X : from_corner_tr _ _ _ _ _ _ = EOk ?p |- _ => destruct p as [s1 tr1]; cbn [fst snd] in H; inversion H; subst;
+        split; [reflexivity|]; eapply from_corner_run1; exact X end.
+    + inversion H; subst. split; [reflexivity|left; reflexivity].
+  - hstep H. hstep H.
+    match goal with X : from_corner_tr _ _ _ _ _ _ = EOk ?p |- _ =>
+      destruct p as [s1 tr1]; cbn [fst snd] in H; inversion H; subst; split; [reflexivity|]; eapply from_corner_run1; exact X end.
+Qed.
+
+Lemma ec_fold_tr_run1 l : forall st, run1_4 st -> run1_4 (fold_left (ec_corner_tr c2v opp hid) l st).
+Proof. induction l as [|a l IH]; intros st Co; cbn [fold_left]; auto. apply IH. apply ec_corner_tr_run1. auto. Qed.
+End LAdj.
+
+(** the trace of an encoding with ONE start-face bit (newest first: [t], [tr = rev t]) *)
+Theorem trace_one_run c2v opp nv niso ndeg o tr : eb_encode_tr c2v opp nv niso ndeg = EOk (o, tr) -> length (o_bits o) = 1 ->
+  exists t, tr = rev t /\
+   (t = [] \/ (ladj opp t /\ (exists cf r, t = cf :: r /\ slink opp cf (rev (o_syms o)) []) /\
+               exists pre cf, t = pre ++ [cf] /\ stack (cf_st cf) = [Some (cf_corner cf)])).
+Proof.
+  unfold eb_encode_tr. intros H Lb. destruct (NF c2v =? ndeg); [discriminate|].
+  destruct (find_holes c2v opp nv) as [[hid vh]| | |]; cbn [ebind] in H; try discriminate.
+  destruct (fold_left (ec_corner_tr c2v opp hid) (seq 0 (NC c2v)) (EOk (init_est (NF c2v) nv vh, [], [], []))) as [[[[s bits] inits] tr0]| | |] eqn:Ef;
+    cbn [ebind] in H; try discriminate.
+  inversion H; subst o tr. clear H. cbn [o_bits o_syms] in *. rewrite rev_length in Lb. exists tr0. split; auto.
+  assert (R : run1_4 opp (EOk (s, bits, inits, tr0))).
+  { rewrite <- Ef. apply ec_fold_tr_run1. intros s0 b0 i0 t0 X. inversion X; subst. left. auto. }
+  destruct (R s bits inits tr0 eq_refl) as [(-> & _)|[(_ & [X|(A & B & C)])|L2]]; [cbn in Lb; lia|left; exact X| |lia].
+  right. split; auto. split; auto. destruct tr0 as [|cf r]; cbn [lpost] in B; [contradiction|].
+  exists cf, r. split; auto. cbn [with_stack syms stack] in B. rewrite rev_involutive. exact B.
+Qed.
+
+(** ** accounting *)
+Local Open Scope Z_scope.
+Definition delta (y : Z) : Z := if y =? 1 then 1 else if y =? 7 then -1 else 0.
+Fixpoint ideal (sy : list Z) : Z := match sy with [] => 1 | y :: r => ideal r + delta y end.
+Definition slack (cf : cfg) : Z := ideal (syms (cf_st cf)) - Z.of_nat (length (stack (cf_st cf))).
+
+Lemma slink_slack opp cf sy st : slink opp cf sy st ->
+  slack cf <= ideal sy - Z.of_nat (length st) /\
+  (ideal sy - Z.of_nat (length st) <= slack cf -> st = pushed opp (hd 0 sy) (cf_corner cf) (stack (cf_st cf))).
+Proof.
+  intros (y & dead & -> & B & C). cbn [ideal hd]. unfold slack.
+  assert (L : Z.of_nat (length (pushed opp y (cf_corner cf) (stack (cf_st cf)))) = Z.of_nat (length (stack (cf_st cf))) + delta y).
+  { unfold pushed, delta. destruct (y =? 7) eqn:E7.
+    - assert (y = 7) by lia. subst y. cbn [Z.eqb Pos.eqb]. destruct (stack (cf_st cf)); [exfalso; apply C; auto|]. cbn [tl length]. lia.
+    - destruct (y =? 1) eqn:E1; [|lia]. assert (y = 1) by lia. subst y.
+      destruct (stack (cf_st cf)); [exfalso; apply C; auto|]. cbn [tl length]. lia. }
+  rewrite B in L. rewrite app_length in L. split; [lia|]. intros Le.
+  assert (length dead = 0%nat) by lia. destruct dead; [|discriminate]. rewrite B. reflexivity.
+Qed.
+
+Lemma last_cons_default {A} (l : list A) : forall a d d', last (a :: l) d = last (a :: l) d'.
+Proof. induction l as [|b l IH]; intros a d d'; [reflexivity|]. change (last (b :: l) d = last (b :: l) d'). apply IH. Qed.
+
+Lemma ladj_strict opp : forall t, ladj opp t -> forall cfN r, t = cfN :: r -> slack cfN <= 0 -> 0 <= slack (last t cfN) ->
+  gadj (sstep opp) t /\ slack cfN = 0.
+Proof.
+  induction t as [|a t IH]; intros A cfN r E Hn Ho; [discriminate|]. inversion E; subst a t. clear E.
+  destruct r as [|cf r'].
+  - cbn [gadj last] in *. split; auto. lia.
+  - cbn [ladj gadj] in A. destruct A as [S1 A']. destruct (slink_slack _ _ _ _ S1) as (M1 & M2). fold (slack cfN) in M1, M2.
+    change (last (cfN :: cf :: r') cfN) with (last (cf :: r') cfN) in Ho.
+    assert (El : last (cf :: r') cfN = last (cf :: r') cf) by apply last_cons_default.
+    rewrite El in Ho.
+    destruct (IH A' cf r' eq_refl ltac:(lia) Ho) as (G & Z0).
+    split; [|lia]. cbn [gadj]. split; [|exact G]. unfold sstep. apply M2. lia.
+Qed.
+Local Close Scope Z_scope.
